@@ -89,6 +89,7 @@ static time_t verif_time(time_t *t) { (void)t; return 0; }
 #define M_ITER_FREE hashtable_iter_free
 #define M_DESTROY hashtable_destroy
 #define M_NOTIFY_ADD hashtable_notify_add
+#define M_NOTIFY_DEL hashtable_notify_del
 #elif IMPL == 1
 #define M_PUT skiplist_put
 #define M_GET skiplist_get
@@ -99,6 +100,7 @@ static time_t verif_time(time_t *t) { (void)t; return 0; }
 #define M_ITER_FREE skiplist_iter_free
 #define M_DESTROY skiplist_destroy
 #define M_NOTIFY_ADD skiplist_notify_add
+#define M_NOTIFY_DEL skiplist_notify_del
 #else
 #define M_PUT trie_put
 #define M_GET trie_get
@@ -448,6 +450,29 @@ static void do_op(int kind, int arg, int n)
 			QB_MAP_NOTIFY_INSERTED | QB_MAP_NOTIFY_REPLACED | QB_MAP_NOTIFY_DELETED, (void *)(intptr_t)(100 + 50));
 		PROP(r == 0 || r == -EEXIST, "trie: a notifier can be registered on any key");
 		break; }
+#if IMPL != 2
+	case 13: {
+		/* delete the per-key notifier of pool key k by naming a DIFFERENT (overlapping) event mask: nothing matches,
+		 * -ENOENT, and the registration made by kind 11 stays active */
+		if (!present[k]) break;
+		if (!keynotif[k]) {          /* (make sure a registration with the three-event mask exists) */
+			int32_t ra = M_NOTIFY_ADD(m, POOL[k], key_cb,
+				QB_MAP_NOTIFY_INSERTED | QB_MAP_NOTIFY_REPLACED | QB_MAP_NOTIFY_DELETED, (void *)(intptr_t)(100 + k));
+			PROP(ra == 0, "a notifier can be registered on a stored key");
+			if (ra == 0) keynotif[k] = 1;
+		}
+		int32_t r = M_NOTIFY_DEL(m, POOL[k], key_cb, QB_MAP_NOTIFY_REPLACED, 1, (void *)(intptr_t)(100 + k));
+		PROP(r == -ENOENT, "notify_del with an event mask that was never registered finds nothing");
+		break; }
+	case 14: {
+		/* delete it with the exact mask it was registered with */
+		if (!present[k]) break;
+		int32_t r = M_NOTIFY_DEL(m, POOL[k], key_cb,
+			QB_MAP_NOTIFY_INSERTED | QB_MAP_NOTIFY_REPLACED | QB_MAP_NOTIFY_DELETED, 1, (void *)(intptr_t)(100 + k));
+		PROP(r == (keynotif[k] ? 0 : -ENOENT), "notify_del removes exactly the registration it names");
+		keynotif[k] = 0;
+		break; }
+#endif
 	case 10: {
 		/* "a" is a prefix of stored keys but never a key itself */
 		int32_t r = M_RM(m, "a");
@@ -482,6 +507,8 @@ static const struct opdef ALPHA[] = {
 	{1,0},{1,1},{1,2},{1,3}, {3,0},{3,1},{3,2},{3,3}, {4,0}, {9,0}, {11,0},{11,1},
 #if IMPL == 2
 	{8,0},{8,1},{10,0},{12,0},
+#else
+	{13,0},{14,0},
 #endif
 #else                    /* C18: iterators under removal/insertion (3 keys, 2 iterators) */
 	{1,0},{1,1},{1,2}, {3,0},{3,1},{3,2}, {5,0},{5,1}, {6,0},{6,1}, {7,0},{7,1},
